@@ -162,6 +162,12 @@ def gen_inputs(tier, rng):
         py = max(0, kh // 2 + rng.choice([0, 0, 0, 1, -1])); px_ = max(0, kw // 2 + rng.choice([0, 0, 0, 1, -1]))
         pm = pad(inner, py, px_)
         yield {"op": rng.choice(["blurutil", "blur", "blurgrid"]), "m": pm, "k": [kh, kw], "g": rng.choice(GEOMS)}
+        if j % 5 == 0:
+            # a kernel with an even side on a generously padded mask (the loops alone would not raise): the public
+            # entry points must reject it
+            ek = rng.choice([[kh, kw + 1], [kh + 1, kw], [kh + 1, kw + 1]])
+            yield {"op": rng.choice(["blur", "blurgrid", "blurutil"]), "m": pad(inner, ek[0] // 2 + 1, ek[1] // 2 + 1), "k": ek,
+                   "g": rng.choice(GEOMS)}
         yield {"op": rng.choice(["blurutil", "blur", "blurgrid"]), "m": ms, "k": [rng.choice(KS[:3]), rng.choice(KS[:3])], "g": rng.choice(GEOMS)}
 
 # ----------------------------------------------------------------------------- implementation calls
